@@ -634,7 +634,8 @@ func (g *raceGen) featFor() {
 func (g *raceGen) featFlags() {
 	g.feat("flags")
 	if g.p(0.3) {
-		g.root.head = append(g.root.head, "set: [pipefail]", "shopt: [globstar]")
+		// several options, NOT in alphabetical order: whoever sorts the joined list must sort a copy
+		g.root.head = append(g.root.head, "set: [pipefail, allexport]", "shopt: [nullglob, globstar]")
 		g.feat("flags-global-set")
 	}
 	if g.p(0.2) {
